@@ -122,6 +122,14 @@ theorem C10_event (dose start duration : ℚ) (period : Option ℚ) (num : Optio
         simp only [effNum] at hm ⊢
         exact Int.toNat_of_nonneg hm
 
+/-- **The reduced wrapper forwards the whole regimen.** Setting a regimen through a
+    `ReducedMechanisticModel` (or a `PredictiveModel` whose parameters were fixed) creates the
+    same event as setting it on the wrapped model: dose, start, duration, period *and* the number
+    of doses. -/
+theorem C10_reduced_passthrough (dose start duration : ℚ) (period : Option ℚ) (num : Option ℤ) :
+    reducedRegimenToEvent dose start duration period num =
+      regimenToEvent dose start duration period num := rfl
+
 /-! ## which occurrences have started -/
 
 theorem occStart_mono (e : Event) (hv : e.Valid) {j k : ℕ} (h : j ≤ k) :
